@@ -6,7 +6,7 @@ use crate::{
     attr::{Attr, EnumAttr, FieldAttr, StructAttr, Tagged, VariantAttr},
     deps::Dependencies,
     types::{self, type_as, type_override},
-    utils::make_string_literal,
+    utils::{escape_ts_string, escape_ts_string_expr, make_string_literal},
     DerivedTS,
 };
 
@@ -109,6 +109,9 @@ fn format_variant(
     let variant_dependencies = variant_type.dependencies;
     let inline_type = variant_type.inline;
 
+    // from here on, the variant's name is only used between double quotes
+    let ts_name = escape_ts_string_expr(&ts_name);
+
     let parsed_ty = match (&variant_attr.type_as, &variant_attr.type_override) {
         (Some(_), Some(_)) => syn_err_spanned!(variant; "`type` is not compatible with `as`"),
         (Some(ty), None) => {
@@ -120,6 +123,13 @@ fn format_variant(
             dependencies.append(variant_dependencies);
             inline_type
         }
+    };
+
+    // tag and content keys, as they are written between double quotes
+    let (tag, content) = match enum_attr.tagged()? {
+        Tagged::Adjacently { tag, content } => (escape_ts_string(tag), escape_ts_string(content)),
+        Tagged::Internally { tag } => (escape_ts_string(tag), String::new()),
+        Tagged::Externally | Tagged::Untagged => (String::new(), String::new()),
     };
 
     let formatted = match (untagged_variant, enum_attr.tagged()?) {
@@ -140,7 +150,7 @@ fn format_variant(
             }
             _ => quote!(format!("{{ \"{}\": {} }}", #ts_name, #parsed_ty)),
         },
-        (false, Tagged::Adjacently { tag, content }) => match &variant.fields {
+        (false, Tagged::Adjacently { .. }) => match &variant.fields {
             Fields::Unnamed(unnamed) if unnamed.unnamed.len() == 1 => {
                 let field = &unnamed.unnamed[0];
                 let field_attr = FieldAttr::from_attrs(&unnamed.unnamed[0].attrs)?;
@@ -171,7 +181,7 @@ fn format_variant(
                 format!("{{ \"{}\": \"{}\", \"{}\": {} }}", #tag, #ts_name, #content, #parsed_ty)
             ),
         },
-        (false, Tagged::Internally { tag }) => match variant_type.inline_flattened {
+        (false, Tagged::Internally { .. }) => match variant_type.inline_flattened {
             Some(_) => {
                 quote! { #parsed_ty }
             }
